@@ -1067,6 +1067,85 @@ pub fn xargs_main(args: &[&str]) -> i32 {
     }
 }
 
+/// Verification hook (only compiled with `--cfg findutils_verif`): runs the two
+/// private argument readers over a stream that is delivered in caller-chosen
+/// `read()` chunks and returns the tokens with their hard/soft termination.
+#[cfg(findutils_verif)]
+pub mod verif {
+    use super::{
+        ArgumentKind, ArgumentReader, ByteDelimitedArgumentReader,
+        WhitespaceDelimitedArgumentReader,
+    };
+    use std::collections::VecDeque;
+    use std::io::{self, Read};
+
+    /// One result of a `read()` call on the simulated input stream.
+    #[derive(Clone, Debug)]
+    pub enum Chunk {
+        Data(Vec<u8>),
+        Interrupted,
+    }
+
+    struct ChunkedReader {
+        chunks: VecDeque<Chunk>,
+    }
+
+    impl Read for ChunkedReader {
+        fn read(&mut self, buf: &mut [u8]) -> io::Result<usize> {
+            loop {
+                match self.chunks.pop_front() {
+                    None => return Ok(0),
+                    Some(Chunk::Interrupted) => {
+                        return Err(io::Error::from(io::ErrorKind::Interrupted))
+                    }
+                    // An empty chunk would look like EOF: skip it.
+                    Some(Chunk::Data(data)) if data.is_empty() => continue,
+                    Some(Chunk::Data(mut data)) => {
+                        if data.len() > buf.len() {
+                            let rest = data.split_off(buf.len());
+                            self.chunks.push_front(Chunk::Data(rest));
+                        }
+                        buf[..data.len()].copy_from_slice(&data);
+                        return Ok(data.len());
+                    }
+                }
+            }
+        }
+    }
+
+    /// Tokenize `chunks` with the whitespace/quote reader (`delimiter == None`)
+    /// or the byte-delimited reader. Each token is (bytes, hard_terminated).
+    pub fn tokenize(
+        chunks: &[Chunk],
+        delimiter: Option<u8>,
+    ) -> Result<Vec<(Vec<u8>, bool)>, String> {
+        let rd = ChunkedReader {
+            chunks: chunks.iter().cloned().collect(),
+        };
+        let mut reader: Box<dyn ArgumentReader> = match delimiter {
+            Some(d) => Box::new(ByteDelimitedArgumentReader::new(rd, d)),
+            None => Box::new(WhitespaceDelimitedArgumentReader::new(rd)),
+        };
+        let mut out = vec![];
+        loop {
+            match reader.next() {
+                Ok(Some(arg)) => {
+                    #[cfg(unix)]
+                    let bytes = {
+                        use std::os::unix::ffi::OsStrExt;
+                        arg.arg.as_os_str().as_bytes().to_vec()
+                    };
+                    #[cfg(not(unix))]
+                    let bytes = arg.arg.to_string_lossy().into_owned().into_bytes();
+                    out.push((bytes, arg.kind == ArgumentKind::HardTerminated));
+                }
+                Ok(None) => return Ok(out),
+                Err(e) => return Err(e.to_string()),
+            }
+        }
+    }
+}
+
 #[cfg(test)]
 mod tests {
     use super::*;
